@@ -1,21 +1,569 @@
-//! Monitor for property C08 (see /verif/DESIGN.md §6).
+//! Monitor for property C08 - checkpoint transparency (DESIGN.md §6 C08).
+//!
+//! Differential execution of two configurations of the real code:
+//!  (a) one VM runs the lines of a program one after the other (each line its own source, run to
+//!      exhaustion);
+//!  (b) for EVERY line boundary k and each of JSON / MessagePack / bincode: the state after line k
+//!      is serialised, deserialised with the same built-ins, and the remaining lines run there.
+//! Everything observable must agree line by line: delivered output, fatal error (title and
+//! rendered text), recovered-error count, font events, and at the end a dump of registers, codes,
+//! current font and the H2 stack sizes. No external model is needed.
+
+use serde_json::json;
 use vcore::*;
+use vstate::texlang::vm::VM;
+use vstate::{Event, Format, VState, VmOptions};
 
 pub struct M;
 pub static MONITOR: M = M;
+
+const MACS: [&str; 5] = ["\\ma", "\\mb", "\\mc", "~", "!"];
+const REGS: [u32; 4] = [1, 2, 3, 255];
+
+fn num(rng: &mut Rng) -> i64 {
+    match rng.below(6) {
+        0 => rng.range_i64(-3, 3),
+        1 => rng.range_i64(0, 15),
+        2 => rng.range_i64(0, 255),
+        _ => rng.range_i64(-1000, 100000),
+    }
+}
+
+fn mac(rng: &mut Rng) -> &'static str {
+    MACS[rng.usize_below(MACS.len())]
+}
+
+fn reg(rng: &mut Rng) -> u32 {
+    REGS[rng.usize_below(REGS.len())]
+}
+
+fn global(rng: &mut Rng) -> &'static str {
+    if rng.chance(1, 3) {
+        "\\global"
+    } else {
+        ""
+    }
+}
+
+/// Generator-side bookkeeping so that most lines are valid where they stand (a program that dies
+/// on its third line exercises little). It is only a heuristic - skipped conditional branches make
+/// it imprecise - and precision is not needed: the oracle is differential.
+#[derive(Default)]
+struct Track {
+    depth: usize,
+    conds: Vec<bool>, // true = \ifcase (\or allowed)
+    open_streams: Vec<i64>,
+    fresh: u32,
+}
+
+/// One line of a generated program. Differential checking needs no model, so lines may be
+/// anything: erroneous, unbalanced, leaving conditionals or groups open across the checkpoint.
+fn gen_line(rng: &mut Rng, t: &mut Track) -> String {
+    t.fresh += 1;
+    let f = t.fresh;
+    let wild = rng.chance(1, 25);
+    loop {
+        let choice = rng.below(64);
+        let line: String = match choice {
+            0..=5 => {
+                if t.depth >= 5 && !wild {
+                    continue;
+                }
+                t.depth += 1;
+                "{".into()
+            }
+            6..=9 => {
+                if t.depth == 0 && !wild {
+                    continue;
+                }
+                t.depth = t.depth.saturating_sub(1);
+                "}".into()
+            }
+            10..=12 => format!("{}\\count{}={}\\relax", global(rng), reg(rng), num(rng)),
+            13 => format!("{}\\advance\\count{} by {}\\relax", global(rng), reg(rng), num(rng)),
+            14..=15 => format!("{}\\dimen{}={}sp\\relax", global(rng), reg(rng), num(rng)),
+            16..=17 => format!(
+                "{}\\skip{}={}pt plus {}fil minus {}pt\\relax",
+                global(rng),
+                reg(rng),
+                rng.range_i64(-50, 50),
+                rng.range_i64(0, 9),
+                rng.range_i64(0, 9)
+            ),
+            18..=19 => format!("{}\\toks{}={{t{f}\\ma #}}", global(rng), reg(rng)),
+            20..=22 => format!("{}\\def{}{{m{f}}}", global(rng), mac(rng)),
+            23 => format!("\\gdef{}#1#2{{<#1|#2|m{f}>}}", mac(rng)),
+            24 => format!("{}\\def{}#1.{{(#1:m{f})}}", global(rng), mac(rng)),
+            25..=26 => format!("{}\\let{}={}", global(rng), mac(rng), mac(rng)),
+            27 => format!("{}\\let{}=\\relax", global(rng), mac(rng)),
+            28 => format!("{}\\let{}=a", global(rng), mac(rng)),
+            29 => format!("{}\\countdef\\ca={}\\relax", global(rng), reg(rng)),
+            30 => format!("\\toksdef\\ta={}\\relax", reg(rng)),
+            31 => format!("\\chardef\\cb={}\\relax", rng.range_i64(0, 300)),
+            32 => format!("\\mathchardef\\cm={}\\relax", rng.range_i64(0, 32767)),
+            33 => format!(
+                "{}\\catcode`\\{}={}\\relax",
+                global(rng),
+                rng.pick(&["Q", "Z", "~", "!", "<"]),
+                rng.pick(&[3, 4, 7, 8, 11, 12, 13])
+            ),
+            34 => format!("{}\\mathcode`\\Q={}\\relax", global(rng), rng.range_i64(0, 32768)),
+            35 => format!(
+                "{}\\endlinechar={}\\relax",
+                global(rng),
+                rng.pick(&[-1i64, 13, 13, 32, 32, -1, 65])
+            ),
+            36 => format!("\\globaldefs={}\\relax", rng.range_i64(-1, 1)),
+            37 => format!(
+                "{}\\font\\f{}={} ",
+                global(rng),
+                rng.pick(&["a", "b"]),
+                if wild { "nofont" } else { *rng.pick(&["a", "b", "c"]) }
+            ),
+            38 => format!("{}{} ", global(rng), rng.pick(&["\\fa", "\\fb", "\\nullfont"])),
+            39 => {
+                let x = ["a", "b", "c"][(f % 3) as usize];
+                format!("\\newInt\\ni{x} \\ni{x}={}\\relax", num(rng))
+            }
+            40 => {
+                let x = ["a", "b"][(f % 2) as usize];
+                format!("\\newIntArray\\na{x} 4 \\na{x} 2={}\\relax", num(rng))
+            }
+            41 => format!(
+                "[\\the\\ni{} \\the\\na{} 2 ]",
+                ["a", "b", "c"][(f % 3) as usize],
+                ["a", "b"][(f % 2) as usize]
+            ),
+            // Conditionals: every line is run to the exhaustion of its input, so a branch that
+            // is being *skipped* cannot span a line end (that is an end-of-input error in TeX
+            // too). What can stay open across lines - and across the checkpoint - is a branch
+            // that is being *executed*; these forms guarantee that.
+            42 => {
+                t.conds.push(false);
+                format!("\\iftrue y{f}")
+            }
+            43 => {
+                t.conds.push(false);
+                format!("\\iffalse n{f}\\else e{f}")
+            }
+            44 => {
+                t.conds.push(false);
+                format!("\\count{}={}\\relax\\ifodd\\count{} o{f}", REGS[0], 2 * rng.range_i64(-9, 9) + 1, REGS[0])
+            }
+            45 => {
+                t.conds.push(true);
+                let n = rng.range_i64(0, 3);
+                format!("\\ifcase{n} {}c{n}", "x\\or ".repeat(n as usize))
+            }
+            46 => {
+                // closed conditional with a register operand: either branch, nothing left open
+                format!(
+                    "\\ifnum\\count{}{}{} y{f}\\else n{f}\\fi",
+                    reg(rng),
+                    rng.pick(&["<", "=", ">"]),
+                    num(rng)
+                )
+            }
+            47..=48 => {
+                // leaving the executed branch: the rest up to \fi is skipped on this same line
+                if t.conds.is_empty() && !wild {
+                    continue;
+                }
+                t.conds.pop();
+                format!("\\else e{f}\\fi")
+            }
+            49..=51 => {
+                if t.conds.is_empty() && !wild {
+                    continue;
+                }
+                t.conds.pop();
+                "\\fi".into()
+            }
+            52 => {
+                let n = rng.range_i64(0, 3);
+                let file = if wild { "nofile" } else { *rng.pick(&["f", "g"]) };
+                if !t.open_streams.contains(&n) && file != "nofile" {
+                    t.open_streams.push(n);
+                }
+                format!("\\openin{n}={file} ")
+            }
+            53 => {
+                if t.open_streams.is_empty() {
+                    continue;
+                }
+                format!("\\read{} to{}", rng.pick(&t.open_streams), mac(rng))
+            }
+            54 => format!("\\ifeof{} T\\else F\\fi", rng.range_i64(0, 3)),
+            55 => {
+                let n = rng.range_i64(0, 3);
+                t.open_streams.retain(|x| *x != n);
+                format!("\\closein{n} ")
+            }
+            56 => format!("\\input {} ", rng.pick(&["f", "g", "h"])),
+            57 => {
+                // a control sequence name never seen before (interner growth across the checkpoint)
+                let name: String = format!("{f}")
+                    .chars()
+                    .map(|d| (b'a' + (d as u8 - b'0')) as char)
+                    .collect();
+                format!("\\def\\zz{name}{{z{f}}}\\zz{name} ")
+            }
+            58 => rng
+                .pick(&["\\scrollmode", "\\nonstopmode", "\\errorstopmode", "\\batchmode", "\\scrollmode"])
+                .to_string(),
+            59 => format!("\\year={} \\day={}\\relax", num(rng), num(rng)),
+            60 => "\\def\\md#1.{<#1>}\\expandafter\\md\\mc ab.".into(),
+            // reads
+            61 => format!(
+                "[\\the\\count{} \\the\\dimen{} \\the\\skip{} \\the\\toks{}]",
+                reg(rng),
+                reg(rng),
+                reg(rng),
+                reg(rng)
+            ),
+            62 => format!("[{} xy.]", mac(rng)),
+            _ => "[\\the\\ca \\the\\cb \\the\\catcode`\\Q \\the\\endlinechar \\the\\globaldefs \\the\\ta]".into(),
+        };
+        return line;
+    }
+}
+
+const PREAMBLE: &[&str] = &[
+    "\\catcode`\\~=13 \\catcode`\\!=13 \\font\\fa=a \\font\\fb=b \\countdef\\ca=1 \\toksdef\\ta=2 \\chardef\\cb=66 \\newInt\\nia \\newInt\\nib \\newInt\\nic \\newIntArray\\naa 4 \\newIntArray\\nab 4 ",
+    "\\def\\ma{A}\\def\\mb#1.{(#1)}\\def\\mc{C}\\def~{T}\\def!{E}\\mathchardef\\cm=5 ",
+];
+
+fn files() -> Vec<(String, String)> {
+    vec![
+        ("f.tex".into(), "F1 {x}\nF2 \\count3=9 \nF3".into()),
+        ("g.tex".into(), "G1\n{G2\nG3}\nG4\n".into()),
+        ("h.tex".into(), "\\input f H\\endinput X\n".into()),
+    ]
+}
+
+fn opts() -> VmOptions {
+    VmOptions {
+        budget: 200_000,
+        files: files(),
+        terminal_lines: vec![],
+        ..Default::default()
+    }
+}
+
+/// What one line did, as seen from outside.
+#[derive(Debug, Clone, PartialEq, Eq)]
+struct LineObs {
+    out: String,
+    err: Option<(String, String)>,
+    recovered: u64,
+    fonts: Vec<u32>,
+}
+
+fn run_line(vm: &mut VM<VState>, k: usize, line: &str) -> LineObs {
+    let before = vm.state.mon.recovered.get();
+    let o = vstate::run(vm, &format!("l{k}.tex"), line);
+    let out = vstate::take_out(vm);
+    let fonts = vstate::take_events(vm)
+        .into_iter()
+        .filter_map(|e| match e {
+            Event::EnableFont(f) => Some(f),
+            _ => None,
+        })
+        .collect();
+    LineObs {
+        out,
+        err: match o {
+            vstate::Outcome::Ok => None,
+            vstate::Outcome::Err { title, rendered } => Some((title, rendered)),
+        },
+        recovered: vm.state.mon.recovered.get() - before,
+        fonts,
+    }
+}
+
+/// State dump read straight from the VM (not through TeX).
+fn dump(vm: &VM<VState>) -> serde_json::Value {
+    let s = vm.verif_snapshot();
+    let ci = vm.state.registers_i32.values();
+    let cd = vm.state.registers_scaled.values();
+    let cg = vm.state.registers_glue.values();
+    let ct = vm.state.registers_token_list.values();
+    let interner = vm.cs_name_interner();
+    let regs: Vec<serde_json::Value> = REGS
+        .iter()
+        .map(|r| {
+            let r = *r as usize;
+            json!({
+                "count": ci[r], "dimen": format!("{}", cd[r]), "skip": format!("{}", cg[r]),
+                "toks": vstate::tokens_to_string(&ct[r], interner),
+            })
+        })
+        .collect();
+    let cats: Vec<String> = ['Q', 'Z', '~', '!', '[', '<']
+        .iter()
+        .map(|c| format!("{:?}", vm.state.codes_cat_code.get(*c as usize)))
+        .collect();
+    use vstate::texlang::traits::TexlangState;
+    json!({
+        "regs": regs,
+        "catcodes": cats,
+        "mathcode_Q": format!("{:?}", vm.state.codes_math_code.get('Q' as usize)),
+        "endlinechar": format!("{:?}", vm.state.end_line_char()),
+        "font": vm.current_font().0,
+        "groups": [s.commands_groups, s.active_char_groups, s.save_stack_len, s.font_stack_len],
+        "save_entries": s.save_stack_entries,
+        "exec_stack": s.exec_stack_len,
+        "sources": s.num_sources,
+    })
+}
+
+const READBACK: &[&str] = &[
+    "[\\the\\count1 \\the\\count2 \\the\\count3 \\the\\count255 \\the\\dimen1 \\the\\skip2 \\the\\toks1 \\the\\toks3 ]",
+    "[\\the\\ca \\the\\cb \\the\\cm \\the\\catcode`\\Q \\the\\mathcode`\\Q \\the\\endlinechar \\the\\globaldefs \\the\\year \\the\\nia \\the\\nib \\the\\naa 2 \\the\\nab 2 ]",
+    "[\\ma]",
+    "[\\mb pq.]",
+    "[\\mc]",
+    "[~]",
+    "[!]",
+];
+
+fn final_lines(t: &Track) -> Vec<String> {
+    let mut v: Vec<String> = vec![];
+    for _ in 0..t.conds.len() {
+        v.push("\\fi".into());
+    }
+    v.extend(READBACK.iter().map(|s| s.to_string()));
+    for _ in 0..t.depth {
+        v.push("}[\\the\\count1 \\the\\dimen2 \\the\\toks1 \\ma ~]".into());
+    }
+    v
+}
+
+fn check_program(lines: &[String], obs: &mut Obs) {
+    let o = opts();
+    let all_formats = obs.tier == Tier::Thorough || obs.phase() == "known";
+    let rot = obs.idx() as usize;
+    // (a) reference execution, keeping serialised checkpoints
+    let lines_a: Vec<String> = lines.to_vec();
+    let oa = opts();
+    let ra = vcore::catch(move || {
+        let mut vm = vstate::new_vm(&oa);
+        let mut per_line = vec![];
+        let mut checkpoints: Vec<Vec<(Format, Result<Box<VM<VState>>, String>)>> = vec![];
+        let mut dump_final = serde_json::Value::Null;
+        for (k, line) in lines_a.iter().enumerate() {
+            let lo = run_line(&mut vm, k, line);
+            let fatal = lo.err.is_some();
+            per_line.push(lo);
+            if fatal {
+                break; // after a fatal error the pending input is not exhausted: no checkpoint
+            }
+            if k + 1 < lines_a.len() {
+                let mut c = vec![];
+                for (fi, f) in [Format::Json, Format::MessagePack, Format::Bincode]
+                    .into_iter()
+                    .enumerate()
+                {
+                    // quick tier: one format per boundary, rotating; thorough: all three
+                    if all_formats || (k + rot) % 3 == fi {
+                        c.push((f, vstate::checkpoint(&vm, f, &oa)));
+                    }
+                }
+                checkpoints.push(c);
+            }
+            dump_final = dump(&vm);
+        }
+        (per_line, checkpoints, dump_final)
+    });
+    let (per_line, checkpoints, dump_a) = match ra {
+        Ok(x) => x,
+        Err(p) => {
+            // a panic in the plain run is C09's subject; a panic in (de)serialisation is ours
+            if p.repo_file.contains("serde") || p.message.contains("serial") {
+                obs.repo_panic(&p, json!({"program": lines, "where": "reference run / checkpointing"}));
+            } else if p.budget {
+                obs.count("budget_exceeded");
+            } else {
+                obs.count("reference_run_panicked");
+                obs.repo_panic(&p, json!({"program": lines, "where": "reference run / checkpointing"}));
+            }
+            return;
+        }
+    };
+    obs.count("programs_run");
+    let n_run = per_line.len();
+    obs.add("lines_run", n_run as u64);
+    if let Some(Some((title, _))) = per_line.last().map(|l| l.err.clone()) {
+        obs.count("programs_ending_in_fatal_error");
+        let t: String = title
+            .chars()
+            .take_while(|c| !c.is_ascii_digit() && *c != '`')
+            .take(40)
+            .collect();
+        obs.count(&format!("fatal:{t}"));
+    }
+    obs.add(
+        "recovered_errors",
+        per_line.iter().map(|l| l.recovered).sum::<u64>(),
+    );
+    // (b) every checkpoint, every format
+    for (k, cps) in checkpoints.into_iter().enumerate() {
+        for (fmt, vm_or) in cps {
+            let mut vm_b = match vm_or {
+                Ok(v) => v,
+                Err(e) => {
+                    obs.violation(
+                        format!("checkpoint-failed:{fmt:?}"),
+                        json!({"program": lines, "checkpoint_after_line": k, "error": e}),
+                    );
+                    return;
+                }
+            };
+            obs.count("checkpoints");
+            obs.count(&format!("checkpoints_{fmt:?}"));
+            {
+                let s = vm_b.verif_snapshot();
+                obs.count(&format!("checkpoint_group_depth_{}", s.commands_groups.min(6)));
+                if s.save_stack_entries.iter().sum::<usize>() > 0 {
+                    obs.count("checkpoints_with_saved_values");
+                }
+            }
+            let rest: Vec<String> = lines[k + 1..n_run].to_vec();
+            let rb = vcore::catch(move || {
+                let mut v = vec![];
+                for (j, line) in rest.iter().enumerate() {
+                    v.push(run_line(&mut vm_b, k + 1 + j, line));
+                }
+                let d = dump(&vm_b);
+                (v, d)
+            });
+            let (got, dump_b) = match rb {
+                Ok(x) => x,
+                Err(p) => {
+                    if p.budget {
+                        obs.count("budget_exceeded");
+                        continue;
+                    }
+                    obs.repo_panic(
+                        &p,
+                        json!({"program": lines, "checkpoint_after_line": k, "format": format!("{fmt:?}"), "where": "run after checkpoint"}),
+                    );
+                    return;
+                }
+            };
+            for (j, g) in got.iter().enumerate() {
+                let want = &per_line[k + 1 + j];
+                if g != want {
+                    let what = if g.out != want.out {
+                        "output"
+                    } else if g.err != want.err {
+                        "error"
+                    } else if g.recovered != want.recovered {
+                        "recovered-errors"
+                    } else {
+                        "font-events"
+                    };
+                    obs.violation(
+                        format!("diverged:{what}"),
+                        json!({
+                            "program": lines, "checkpoint_after_line": k, "format": format!("{fmt:?}"),
+                            "diverging_line": k + 1 + j, "line_text": lines[k + 1 + j],
+                            "uninterrupted": format!("{want:?}"), "after_checkpoint": format!("{g:?}"),
+                        }),
+                    );
+                    return;
+                }
+            }
+            // the final state dump is only comparable when the whole program ran without a fatal error
+            let fatal_end = per_line.last().map(|l| l.err.is_some()).unwrap_or(false);
+            if !fatal_end && dump_b != dump_a {
+                obs.violation(
+                    "diverged:final-state",
+                    json!({
+                        "program": lines, "checkpoint_after_line": k, "format": format!("{fmt:?}"),
+                        "uninterrupted": dump_a, "after_checkpoint": dump_b,
+                    }),
+                );
+                return;
+            }
+        }
+    }
+    obs.nontrivial(lines);
+    if obs.wants_sample() {
+        obs.sample(json!({
+            "program": lines, "lines_run": n_run,
+            "outputs": per_line.iter().map(|l| l.out.clone()).collect::<Vec<_>>(),
+            "last_error": per_line.last().and_then(|l| l.err.clone()).map(|e| e.0),
+        }));
+    }
+    let _ = o;
+}
 
 impl Monitor for M {
     fn id(&self) -> &'static str {
         "C08"
     }
     fn rule(&self) -> String {
-        "not built yet".into()
+        "programs = 2 preamble lines + 4-14 random lines (groups, local/global assignments to all register kinds, \\def/\\gdef \
+         with parameters, \\let aliases incl. shared macros, \\countdef/\\toksdef/\\chardef/\\mathchardef, \\catcode/\\mathcode, \
+         \\endlinechar, \\globaldefs, fonts, \\newInt/\\newIntArray, conditionals left open across lines, \\openin/\\read/\\ifeof/\
+         \\closein, \\input, fresh control sequence names, interaction modes, erroneous lines) + 11 fixed read-back lines; every \
+         line is its own source; EVERY line boundary is tried as checkpoint (the crash_points quantifier is enumerated): in the \
+         thorough tier in JSON, MessagePack and bincode each, in the quick tier in one of the three, rotating per boundary. Non-trivial: the program ran and every checkpoint continuation was compared; distinct = \
+         distinct program text."
+            .into()
     }
     fn assumptions(&self) -> Vec<String> {
-        vec![]
+        vec![
+            "differential oracle: uninterrupted run vs run continued after serialise+deserialise; no external model".into(),
+            "after a fatal error the pending input is not exhausted, so no checkpoint is taken after it (the failing line itself must fail identically after every earlier checkpoint)".into(),
+            "non-serialised attachments (file system, terminal, globally-prefixable tag registry, monitor bookkeeping) are re-attached after deserialisation, as an engine built on texlang has to".into(),
+            "\\scriptfont/\\textfont registers are not serialisable in the repo (marker types without serde impls) and are not generated".into(),
+        ]
     }
-    fn phases(&self, _tier: Tier) -> Vec<Phase> {
-        vec![]
+    fn phases(&self, tier: Tier) -> Vec<Phase> {
+        vec![
+            Phase::new("known", 4).batch(1),
+            Phase::new("random", tier.pick(800, 60_000)).batch(4),
+        ]
     }
-    fn run_case(&self, _phase: &str, _idx: u64, _rng: &mut Rng, _obs: &mut Obs) {}
+    fn floors(&self, _tier: Tier) -> Vec<(&'static str, u64)> {
+        vec![
+            ("programs_run", 700),
+            ("checkpoints", 9_000),
+            ("checkpoints_Json", 3_000),
+            ("checkpoints_MessagePack", 3_000),
+            ("checkpoints_Bincode", 3_000),
+            ("checkpoints_with_saved_values", 2_000),
+            ("checkpoint_group_depth_2", 500),
+            ("recovered_errors", 20),
+        ]
+    }
+    fn run_case(&self, phase: &str, idx: u64, rng: &mut Rng, obs: &mut Obs) {
+        let mut lines: Vec<String> = PREAMBLE.iter().map(|s| s.to_string()).collect();
+        if phase == "known" {
+            // active-character definitions across a checkpoint (the defect named in the property)
+            let extra: &[&str] = match idx {
+                0 => &["\\def~{NEW}", "[~]"],
+                1 => &["{\\def~{IN}", "[~]}", "[~]"],
+                2 => &["{\\count1=5 {\\global\\count1=6 ", "}[\\the\\count1]", "}[\\the\\count1]"],
+                _ => &["\\let\\mc=\\ma \\def\\ma{X}", "[\\mc\\ma]"],
+            };
+            lines.extend(extra.iter().map(|s| s.to_string()));
+            check_program(&lines, obs);
+            return;
+        }
+        let n = rng.range_usize(4, 14);
+        let mut t = Track::default();
+        if rng.chance(3, 4) {
+            // recoverable errors are recovered (and counted) instead of ending the program
+            lines.push(rng.pick(&["\\scrollmode", "\\nonstopmode", "\\batchmode"]).to_string());
+        }
+        for _ in 0..n {
+            let l = gen_line(rng, &mut t);
+            lines.push(l);
+        }
+        lines.extend(final_lines(&t));
+        check_program(&lines, obs);
+    }
 }
